@@ -180,6 +180,9 @@ impl MT202 {
             None
         };
 
+        // Reject content left after the last field of the message
+        verify_parser_complete(&parser)?;
+
         Ok(MT202 {
             field_20,
             field_21,
